@@ -1,8 +1,457 @@
-(* C15 — proofs about the RPC client model (all histories = all lists of operations). *)
-From Coq Require Import ZArith List Bool Lia.
+(* C15 — proofs about the RPC client model.
+   All histories = all lists of operations; all counter positions 0 <= c0 < 65536 (incl. the wrap). *)
+From Coq Require Import ZArith List Bool Lia Permutation.
 From FV Require Import Generated.Consts C15.Model.
 Import ListNotations.
 Open Scope Z_scope.
 
+Ltac Zify.zify_post_hook ::= Z.div_mod_to_equations.
+
+Definition keys (p : list (Z * ctx)) : list Z := map fst p.
+Definition u16 (c : Z) : Prop := 0 <= c < 65536.
+Definition seqnum (k : Z) : Prop := 0 < k < 65536.
+
+(* ------------------------------------------------------------------ the association list *)
+
+Lemma lookup_In k p c : lookup k p = Some c -> In (k, c) p.
+Proof.
+  induction p as [|[k' v] p IH]; simpl; [discriminate|].
+  destruct (k =? k') eqn:E; [apply Z.eqb_eq in E; intros H; inversion H; subst; left; reflexivity|].
+  intros H. right. apply IH. exact H.
+Qed.
+
+Lemma lookup_None k p : lookup k p = None <-> ~ In k (keys p).
+Proof.
+  induction p as [|[k' v] p IH]; simpl; [tauto|].
+  destruct (k =? k') eqn:E.
+  - apply Z.eqb_eq in E. subst. split; [discriminate | intros H; exfalso; apply H; left; reflexivity].
+  - apply Z.eqb_neq in E. rewrite IH. split; [intros H [H1|H1]; [congruence | tauto] | tauto].
+Qed.
+
+Lemma has_false k p : has k p = false <-> ~ In k (keys p).
+Proof. unfold has. rewrite <- lookup_None. destruct (lookup k p); split; congruence. Qed.
+
+Lemma In_lookup k c p : NoDup (keys p) -> In (k, c) p -> lookup k p = Some c.
+Proof.
+  induction p as [|[k' v] p IH]; simpl; [tauto|]. intros N H. inversion N; subst.
+  destruct H as [H|H].
+  - inversion H; subst. rewrite Z.eqb_refl. reflexivity.
+  - destruct (k =? k') eqn:E; [|apply IH; assumption].
+    apply Z.eqb_eq in E. subst. exfalso. apply H2. unfold keys. apply (in_map fst) in H. exact H.
+Qed.
+
+Lemma remove_keys k p : keys (remove k p) = filter (fun x => negb (x =? k)) (keys p).
+Proof.
+  induction p as [|[k' v] p IH]; simpl; [reflexivity|].
+  rewrite (Z.eqb_sym k' k). destruct (k =? k'); simpl; rewrite IH; reflexivity.
+Qed.
+
+Lemma remove_In k p e : In e (remove k p) -> In e p /\ fst e <> k.
+Proof.
+  induction p as [|[k' v] p IH]; simpl; [tauto|].
+  destruct (k =? k') eqn:E.
+  - intros H. destruct (IH H). split; [right|]; assumption.
+  - apply Z.eqb_neq in E. intros [H|H]; [subst; simpl; split; [left; reflexivity | congruence]|].
+    destruct (IH H). split; [right|]; assumption.
+Qed.
+
+Lemma NoDup_filter {A} (f : A -> bool) l : NoDup l -> NoDup (filter f l).
+Proof.
+  induction 1 as [|x l Hx N IH]; simpl; [constructor|].
+  destruct (f x); [constructor; [rewrite filter_In; tauto | exact IH] | exact IH].
+Qed.
+
+Lemma remove_absent k p : ~ In k (keys p) -> remove k p = p.
+Proof.
+  induction p as [|[k' v] p IH]; simpl; [reflexivity|]. intros H.
+  destruct (k =? k') eqn:E; [apply Z.eqb_eq in E; subst; tauto|].
+  rewrite IH; [reflexivity | tauto].
+Qed.
+
+Lemma lookup_remove_same k p : lookup k (remove k p) = None.
+Proof. apply lookup_None. rewrite remove_keys, filter_In. rewrite Z.eqb_refl. simpl. intros [_ H]; discriminate. Qed.
+
+Lemma lookup_remove_other k k' p : k' <> k -> lookup k' (remove k p) = lookup k' p.
+Proof.
+  intros Hne. induction p as [|[a v] p IH]; simpl; [reflexivity|].
+  destruct (k =? a) eqn:E.
+  - apply Z.eqb_eq in E. subst. destruct (k' =? a) eqn:E2; [apply Z.eqb_eq in E2; congruence | exact IH].
+  - simpl. rewrite IH. reflexivity.
+Qed.
+
+Lemma remove_split k c p : NoDup (keys p) -> lookup k p = Some c ->
+  exists l1 l2, p = l1 ++ (k, c) :: l2 /\ remove k p = l1 ++ l2.
+Proof.
+  induction p as [|[k' v] p IH]; simpl; [discriminate|]. intros N H. inversion N; subst.
+  destruct (k =? k') eqn:E.
+  - apply Z.eqb_eq in E. subst. inversion H; subst. exists [], p. split; [reflexivity|].
+    simpl. apply remove_absent. exact H2.
+  - destruct (IH H3 H) as [l1 [l2 [E1 E2]]]. exists ((k', v) :: l1), l2. subst p. split; [reflexivity|].
+    simpl. rewrite E2. reflexivity.
+Qed.
+
+(* ------------------------------------------------------------------ the counter *)
+
+Lemma bump_range c : u16 c -> seqnum (bump c).
+Proof.
+  unfold u16, seqnum, bump. intros H.
+  destruct ((c + 1) mod 65536 =? 0) eqn:E; [lia|]. apply Z.eqb_neq in E. lia.
+Qed.
+
 Lemma bump_nonzero c : bump c <> 0.
 Proof. unfold bump. destruct ((c + 1) mod 65536 =? 0) eqn:E; [lia | apply Z.eqb_neq in E; exact E]. Qed.
+
+Lemma probe_some fuel : forall c p seq, u16 c -> probe fuel c p = Some seq ->
+  seqnum seq /\ ~ In seq (keys p).
+Proof.
+  induction fuel as [|f IH]; intros c p seq Hc H; simpl in H; [discriminate|].
+  destruct (has (bump c) p) eqn:E.
+  - apply (IH (bump c)); [|exact H]. pose proof (bump_range c Hc). unfold seqnum, u16 in *. lia.
+  - inversion H; subst. split; [apply bump_range; exact Hc | apply has_false; exact E].
+Qed.
+
+(* the probe visits bump c, bump (bump c), ...; these are all of 1..65535 *)
+Fixpoint iter_bump (i : nat) (c : Z) : Z := match i with O => c | S j => bump (iter_bump j c) end.
+
+Lemma iter_bump_closed i c : u16 c -> iter_bump (S i) c = (c - 1 + Z.of_nat (S i)) mod 65535 + 1.
+Proof.
+  intros Hc. induction i as [|i IH].
+  - simpl iter_bump. unfold bump, u16 in *. change (Z.of_nat 1) with 1.
+    destruct ((c + 1) mod 65536 =? 0) eqn:E; [apply Z.eqb_eq in E | apply Z.eqb_neq in E]; lia.
+  - change (iter_bump (S (S i)) c) with (bump (iter_bump (S i) c)). rewrite IH.
+    rewrite (Nat2Z.inj_succ (S i)). generalize (Z.of_nat (S i)). intros m.
+    unfold bump, u16 in *.
+    destruct (((c - 1 + m) mod 65535 + 1 + 1) mod 65536 =? 0) eqn:E;
+      [apply Z.eqb_eq in E | apply Z.eqb_neq in E]; lia.
+Qed.
+
+Lemma iter_bump_shift i c : iter_bump i (bump c) = iter_bump (S i) c.
+Proof. induction i as [|i IH]; [reflexivity|]. simpl. rewrite IH. reflexivity. Qed.
+
+Lemma probe_none fuel : forall c p, probe fuel c p = None ->
+  forall i, (1 <= i <= fuel)%nat -> In (iter_bump i c) (keys p).
+Proof.
+  induction fuel as [|f IH]; intros c p H i Hi; [lia|]. simpl in H.
+  destruct (has (bump c) p) eqn:E; [|discriminate].
+  destruct i as [|[|i]]; [lia | |].
+  - simpl. destruct (in_dec Z.eq_dec (bump c) (keys p)) as [Hin|Hn]; [exact Hin|].
+    apply has_false in Hn. congruence.
+  - rewrite <- iter_bump_shift. apply IH; [exact H | lia].
+Qed.
+
+Lemma probe_none_full c p : u16 c -> probe fuel16 c p = None ->
+  forall k, seqnum k -> In k (keys p).
+Proof.
+  intros Hc H k Hk. unfold seqnum, u16 in *.
+  set (d := (k - c) mod 65535).
+  set (i := if d =? 0 then 65535 else d).
+  assert (Hi : 1 <= i <= 65535) by (unfold i, d; destruct ((k - c) mod 65535 =? 0) eqn:E;
+                                    [lia | apply Z.eqb_neq in E; lia]).
+  pose proof (probe_none fuel16 c p H (Z.to_nat i)) as P.
+  assert (Hr : (1 <= Z.to_nat i <= fuel16)%nat) by (unfold fuel16; lia).
+  specialize (P Hr). replace (Z.to_nat i) with (S (Z.to_nat (i - 1))) in P by lia.
+  rewrite iter_bump_closed in P by exact Hc.
+  replace (Z.of_nat (S (Z.to_nat (i - 1)))) with i in P by lia.
+  replace ((c - 1 + i) mod 65535 + 1) with k in P; [exact P|].
+  unfold i, d. destruct ((k - c) mod 65535 =? 0) eqn:E; [apply Z.eqb_eq in E | apply Z.eqb_neq in E]; lia.
+Qed.
+
+Opaque fuel16.   (* keep simpl/cbn from unfolding a 65535-deep unary numeral *)
+
+(* ------------------------------------------------------------------ the invariant *)
+
+Definition cids (l : list ctx) : list Z := map cid l.
+Definition live (s : st) : list Z := cids (map snd (pending s)) ++ cids (expired s).
+
+Record Inv (s : st) : Prop := mkInv {
+  i_nodup : NoDup (keys (pending s));
+  i_keys : forall k, In k (keys (pending s)) -> seqnum k;
+  i_counter : u16 (counter s);
+  i_live : NoDup (live s);
+  i_bound : forall x, In x (live s) -> 0 <= x < ncalls s;
+  i_ncalls : 0 <= ncalls s
+}.
+
+Lemma Inv_init c0 : u16 c0 -> Inv (init c0).
+Proof.
+  intros H. constructor; simpl; try (constructor; fail); try tauto; try exact H; try lia.
+  all: unfold live; simpl; try constructor; try tauto.
+Qed.
+
+Lemma complete_cid c r : kcid (complete c r) = cid c.
+Proof. unfold complete. destruct (csync c); [reflexivity|]. destruct (0 <? rerr r); [reflexivity|]. destruct (rdec r); reflexivity. Qed.
+
+Lemma filter_perm {A} (f : A -> bool) l : Permutation (filter f l ++ filter (fun x => negb (f x)) l) l.
+Proof.
+  induction l as [|x l IH]; simpl; [constructor|].
+  destruct (f x); simpl; [constructor; exact IH|].
+  rewrite <- Permutation_middle. constructor. exact IH.
+Qed.
+
+Lemma keys_filter_sub (f : Z * ctx -> bool) p k : In k (keys (filter f p)) -> In k (keys p).
+Proof.
+  unfold keys. rewrite !in_map_iff. intros [e [E H]]. apply filter_In in H. exists e. tauto.
+Qed.
+
+Lemma keys_filter_nodup (f : Z * ctx -> bool) p : NoDup (keys p) -> NoDup (keys (filter f p)).
+Proof.
+  induction p as [|e p IH]; simpl; [constructor|]. intros N. inversion N; subst.
+  destruct (f e); simpl; [|apply IH; assumption].
+  constructor; [|apply IH; assumption]. intros H. apply H1. eapply keys_filter_sub; eauto.
+Qed.
+
+(* what an operation does to the identities of the calls: the completed ones leave [live],
+   a new call enters it (or, refused, is completed at once) *)
+Lemma step_cids s o s' x : Inv s -> step s o = (s', x) ->
+  exists fresh, (fresh = [] \/ fresh = [ncalls s]) /\ ncalls s' = ncalls s + Z.of_nat (length fresh) /\
+                Permutation (live s' ++ map kcid (ocomps x)) (fresh ++ live s).
+Proof.
+  intros I H. destruct o as [sync dl|r|now|]; simpl in H.
+  - destruct (probe fuel16 (counter s) (pending s)) as [seq|] eqn:P.
+    + destruct (probe_some _ _ _ _ (i_counter _ I) P) as [_ Hn].
+      unfold call_with in H. inversion H; subst; clear H. exists [ncalls s]. split; [right; reflexivity|].
+      split; [simpl; lia|]. unfold live. simpl. rewrite remove_absent by exact Hn. rewrite app_nil_r. reflexivity.
+    + unfold call_refused in H. inversion H; subst; clear H. exists [ncalls s]. split; [right; reflexivity|].
+      split; [simpl; lia|]. unfold live. simpl. rewrite complete_cid. simpl.
+      symmetry. apply Permutation_cons_append.
+  - destruct (lookup (rseq r) (pending s)) as [c|] eqn:L.
+    + inversion H; subst; clear H. exists []. split; [left; reflexivity|]. split; [simpl; lia|].
+      destruct (remove_split _ _ _ (i_nodup _ I) L) as [l1 [l2 [E1 E2]]].
+      unfold live. simpl. rewrite E2, E1. rewrite complete_cid. unfold cids. rewrite !map_app. simpl.
+      rewrite <- !app_assoc. apply Permutation_app_head.
+      rewrite (Permutation_app_comm _ [cid c]). simpl.
+      rewrite <- Permutation_middle. reflexivity.
+    + inversion H; subst; clear H. exists []. split; [left; reflexivity|]. split; [simpl; lia|].
+      simpl. rewrite app_nil_r. reflexivity.
+  - inversion H; subst; clear H. exists []. split; [left; reflexivity|]. split; [simpl; lia|].
+    unfold live. simpl. rewrite app_nil_r. unfold cids. rewrite !map_app.
+    rewrite <- (filter_perm (overdue now) (pending s)) at 3. rewrite !map_app.
+    rewrite (Permutation_app_comm (map cid (map snd (filter (overdue now) (pending s))))).
+    rewrite <- !app_assoc. apply Permutation_app_head. apply Permutation_app_comm.
+  - inversion H; subst; clear H. exists []. split; [left; reflexivity|]. split; [simpl; lia|].
+    unfold live. simpl. rewrite app_nil_r. rewrite map_map.
+    apply Permutation_app_head. unfold cids. apply Permutation_refl' . apply map_ext. intros c. apply complete_cid.
+Qed.
+
+Lemma live_sub_perm s s' x fresh : Permutation (live s' ++ map kcid (ocomps x)) (fresh ++ live s) ->
+  forall y, In y (live s') -> In y (fresh ++ live s).
+Proof. intros P y Hy. apply (Permutation_in y P). apply in_or_app. left. exact Hy. Qed.
+
+Lemma step_Inv s o s' x : Inv s -> step s o = (s', x) -> Inv s'.
+Proof.
+  intros I H. destruct (step_cids _ _ _ _ I H) as [fresh [Hf [Hn P]]].
+  assert (NL : NoDup (fresh ++ live s)).
+  { destruct Hf as [->| ->]; simpl; [apply (i_live _ I)|]. constructor; [|apply (i_live _ I)].
+    intros Hin. pose proof (i_bound _ I _ Hin). lia. }
+  assert (BL : forall y, In y (fresh ++ live s) -> 0 <= y < ncalls s').
+  { intros y Hy. apply in_app_or in Hy. destruct Hy as [Hy|Hy].
+    - destruct Hf as [->| ->]; simpl in Hy; [tauto|]. destruct Hy as [<-|[]]. pose proof (i_ncalls _ I). simpl in Hn. lia.
+    - pose proof (i_bound _ I _ Hy). lia. }
+  assert (N' : NoDup (live s')).
+  { apply (Permutation_NoDup (Permutation_sym P)) in NL.
+    clear -NL. induction (live s') as [|a l IH]; simpl in *; [constructor|].
+    inversion NL; subst. constructor; [|apply IH; assumption]. intros Hin. apply H1. apply in_or_app. left. exact Hin. }
+  assert (B' : forall y, In y (live s') -> 0 <= y < ncalls s').
+  { intros y Hy. apply BL. eapply live_sub_perm; eauto. }
+  assert (C' : 0 <= ncalls s') by (pose proof (i_ncalls _ I); lia).
+  clear P NL BL Hf Hn.
+  destruct o as [sync dl|r|now|]; simpl in H.
+  - destruct (probe fuel16 (counter s) (pending s)) as [seq|] eqn:Pr.
+    + destruct (probe_some _ _ _ _ (i_counter _ I) Pr) as [Hs Hni].
+      unfold call_with in H. inversion H; subst; clear H. constructor; simpl; try assumption.
+      * rewrite remove_absent by exact Hni. constructor; [exact Hni | apply (i_nodup _ I)].
+      * rewrite remove_absent by exact Hni. intros k [<-|Hk]; [exact Hs | apply (i_keys _ I); exact Hk].
+      * unfold u16, seqnum in *. lia.
+    + unfold call_refused in H. inversion H; subst; clear H. constructor; simpl; try assumption;
+      [apply (i_nodup _ I) | apply (i_keys _ I) | apply (i_counter _ I)].
+  - destruct (lookup (rseq r) (pending s)) as [c|] eqn:L; inversion H; subst; clear H;
+    constructor; simpl; try assumption; try (apply (i_nodup _ I)); try (apply (i_keys _ I)); try (apply (i_counter _ I)).
+    + rewrite remove_keys. apply NoDup_filter. apply (i_nodup _ I).
+    + intros k Hk. rewrite remove_keys in Hk. apply filter_In in Hk. apply (i_keys _ I). tauto.
+  - inversion H; subst; clear H. constructor; simpl; try assumption; try (apply (i_counter _ I)).
+    + apply keys_filter_nodup. apply (i_nodup _ I).
+    + intros k Hk. apply (i_keys _ I). eapply keys_filter_sub; eauto.
+  - inversion H; subst; clear H. constructor; simpl; try assumption;
+    [apply (i_nodup _ I) | apply (i_keys _ I) | apply (i_counter _ I)].
+Qed.
+
+Lemma run_Inv ops : forall s s' xs, Inv s -> run s ops = (s', xs) -> Inv s'.
+Proof.
+  induction ops as [|o ops IH]; intros s s' xs I H; simpl in H; [inversion H; subst; exact I|].
+  destruct (step s o) as [s1 x] eqn:E1. destruct (run s1 ops) as [s2 xs2] eqn:E2.
+  inversion H; subst. eapply IH; [eapply step_Inv; eauto | exact E2].
+Qed.
+
+Theorem reach_Inv c0 ops : u16 c0 -> Inv (fst (run (init c0) ops)).
+Proof.
+  intros H. destruct (run (init c0) ops) as [s xs] eqn:E. simpl.
+  eapply run_Inv; [apply Inv_init; exact H | exact E].
+Qed.
+
+(* ------------------------------------------------------------------ the operations *)
+
+Theorem call_spec s sync dl : Inv s ->
+  forall s' x, step s (OCall sync dl) = (s', x) ->
+  (seqnum (oseq x) /\ ~ In (oseq x) (keys (pending s)) /\
+   lookup (oseq x) (pending s') = Some (mkctx (ncalls s) sync dl) /\
+   (forall k, k <> oseq x -> lookup k (pending s') = lookup k (pending s)) /\
+   ocomps x = [] /\ expired s' = expired s)
+  \/
+  (oseq x = 0 /\ (forall k, seqnum k -> In k (keys (pending s))) /\
+   pending s' = pending s /\ expired s' = expired s /\
+   ocomps x = [complete (mkctx (ncalls s) sync dl) (errpkt codes_ResourceExhausted)]).
+Proof.
+  intros I s' x H. cbn [step] in H.
+  destruct (probe fuel16 (counter s) (pending s)) as [seq|] eqn:P.
+  - left. destruct (probe_some _ _ _ _ (i_counter _ I) P) as [Hs Hn].
+    unfold call_with in H. inversion H; subst; clear H. simpl.
+    rewrite remove_absent by exact Hn. rewrite Z.eqb_refl.
+    split; [exact Hs|]. split; [exact Hn|]. split; [reflexivity|].
+    split; [|split; reflexivity].
+    intros k Hk. apply Z.eqb_neq in Hk. rewrite Hk. reflexivity.
+  - right. unfold call_refused in H. inversion H; subst; clear H. simpl.
+    split; [reflexivity|]. split; [apply (probe_none_full _ _ (i_counter _ I) P)|].
+    split; [reflexivity|]. split; reflexivity.
+Qed.
+
+Theorem dispatch_spec s r c : Inv s -> lookup (rseq r) (pending s) = Some c ->
+  forall s' x, step s (ODispatch r) = (s', x) ->
+  ocomps x = [complete c r] /\ ores x = 0 /\
+  lookup (rseq r) (pending s') = None /\
+  (forall k, k <> rseq r -> lookup k (pending s') = lookup k (pending s)) /\
+  expired s' = expired s.
+Proof.
+  intros I L s' x H. cbn [step] in H. rewrite L in H. inversion H; subst; clear H. simpl.
+  split; [reflexivity|]. split; [reflexivity|]. split; [apply lookup_remove_same|].
+  split; [intros k Hk; apply lookup_remove_other; exact Hk | reflexivity].
+Qed.
+
+Theorem unmatched_spec s r : lookup (rseq r) (pending s) = None ->
+  step s (ODispatch r) = (s, mkout 0 1 []).
+Proof. intros L. cbn [step]. rewrite L. reflexivity. Qed.
+
+(* what a completion is: the waiter is released with the response packet itself; the callback
+   gets the decoded reply, or the reply's error code, or InternalError if it does not decode *)
+Theorem complete_spec c r :
+  (csync c = true -> complete c r = mkcomp (cid c) 0 (rerr r) (rid r)) /\
+  (csync c = false -> 0 < rerr r -> complete c r = mkcomp (cid c) 1 (rerr r) (-1)) /\
+  (csync c = false -> rerr r <= 0 -> rdec r = true -> complete c r = mkcomp (cid c) 1 0 (rid r)) /\
+  (csync c = false -> rerr r <= 0 -> rdec r = false -> complete c r = mkcomp (cid c) 1 codes_InternalError (-1)).
+Proof.
+  unfold complete. repeat split; intros; repeat match goal with H : _ = _ |- _ => rewrite H end;
+  try reflexivity;
+  destruct (0 <? rerr r) eqn:E; try reflexivity; try (apply Z.ltb_lt in E; lia); try (apply Z.ltb_ge in E; lia).
+Qed.
+
+Lemma count_cid_nodup (l : list ctx) c f : NoDup (cids l) -> In c l -> (forall c', kcid (f c') = cid c') ->
+  length (filter (fun k => kcid k =? cid c) (map f l)) = 1%nat.
+Proof.
+  intros N Hin Hf. induction l as [|a l IH]; simpl in *; [tauto|]. inversion N; subst.
+  rewrite Hf. destruct Hin as [->|Hin].
+  - rewrite Z.eqb_refl. simpl. f_equal.
+    assert (E : filter (fun k => kcid k =? cid c) (map f l) = []).
+    { clear -H1 Hf. induction l as [|b l IH]; simpl; [reflexivity|]. rewrite Hf.
+      destruct (cid b =? cid c) eqn:E; [apply Z.eqb_eq in E; exfalso; apply H1; simpl; left; exact E|].
+      apply IH. intros H. apply H1. right. exact H. }
+    rewrite E. reflexivity.
+  - destruct (cid a =? cid c) eqn:E.
+    + apply Z.eqb_eq in E. exfalso. apply H1. unfold cids. rewrite E. apply in_map. exact Hin.
+    + apply IH; assumption.
+Qed.
+
+Theorem sweep_spec s now : Inv s ->
+  forall s' x, step s (OSweep now) = (s', x) ->
+  ocomps x = [] /\
+  (forall k c, In (k, c) (pending s) -> cdl c < now -> In c (expired s') /\ lookup k (pending s') = None) /\
+  (forall k c, In (k, c) (pending s) -> now <= cdl c -> lookup k (pending s') = Some c) /\
+  (forall c, In c (expired s) -> In c (expired s')).
+Proof.
+  intros I s' x H. cbn [step] in H. inversion H; subst; clear H. simpl.
+  split; [reflexivity|]. split; [|split].
+  - intros k c Hin Hd. split.
+    + apply in_or_app. right. apply in_map_iff. exists (k, c). split; [reflexivity|].
+      apply filter_In. split; [exact Hin|]. unfold overdue. simpl. apply Z.ltb_lt. exact Hd.
+    + apply lookup_None. intros Hk. unfold keys in Hk. apply in_map_iff in Hk. destruct Hk as [[k' c'] [Ek Hf]].
+      simpl in Ek. subst k'. apply filter_In in Hf. destruct Hf as [Hin' Hov].
+      pose proof (In_lookup _ _ _ (i_nodup _ I) Hin) as L1. pose proof (In_lookup _ _ _ (i_nodup _ I) Hin') as L2.
+      assert (c' = c) by congruence. subst c'. unfold overdue in Hov. simpl in Hov.
+      apply negb_true_iff in Hov. apply Z.ltb_ge in Hov. lia.
+  - intros k c Hin Hd. apply In_lookup; [apply keys_filter_nodup; apply (i_nodup _ I)|].
+    apply filter_In. split; [exact Hin|]. unfold overdue. simpl. apply negb_true_iff. apply Z.ltb_ge. exact Hd.
+  - intros c Hin. apply in_or_app. left. exact Hin.
+Qed.
+
+Theorem reap_spec s c : Inv s -> In c (expired s) ->
+  forall s' x, step s OReap = (s', x) ->
+  expired s' = [] /\ pending s' = pending s /\ ores x = Z.of_nat (length (expired s)) /\
+  In (complete c (errpkt codes_RequestTimeout)) (ocomps x) /\
+  length (filter (fun k => kcid k =? cid c) (ocomps x)) = 1%nat.
+Proof.
+  intros I Hin s' x H. cbn [step] in H. inversion H; subst; clear H. simpl.
+  split; [reflexivity|]. split; [reflexivity|]. split; [reflexivity|]. split.
+  - apply (in_map (fun c0 => complete c0 (errpkt codes_RequestTimeout))). exact Hin.
+  - apply count_cid_nodup; [|exact Hin | intros c'; apply complete_cid].
+    pose proof (i_live _ I) as N. unfold live in N. clear -N.
+    induction (cids (map snd (pending s))) as [|a l IH]; simpl in N; [exact N|]. inversion N; subst. apply IH. assumption.
+Qed.
+
+Theorem timeout_complete_spec c :
+  complete c (errpkt codes_RequestTimeout) =
+  mkcomp (cid c) (if csync c then 0 else 1) codes_RequestTimeout (-1).
+Proof. unfold complete, errpkt, codes_RequestTimeout. simpl. destruct (csync c); reflexivity. Qed.
+
+(* a response arriving after its call timed out matches nothing *)
+Theorem late_spec s now k c r : Inv s -> In (k, c) (pending s) -> cdl c < now -> rseq r = k ->
+  forall s1 x1, step s (OSweep now) = (s1, x1) ->
+  step s1 (ODispatch r) = (s1, mkout 0 1 []).
+Proof.
+  intros I Hin Hd Hr s1 x1 H. apply unmatched_spec.
+  destruct (sweep_spec _ _ I _ _ H) as [_ [P _]]. rewrite Hr. apply (P k c Hin Hd).
+Qed.
+
+(* ------------------------------------------------------------------ at most once, over whole histories *)
+
+Lemma run_cids ops : forall s s' xs done, Inv s -> run s ops = (s', xs) ->
+  NoDup (live s ++ done) -> (forall y, In y done -> 0 <= y < ncalls s) ->
+  NoDup (live s' ++ map kcid (completions xs) ++ done).
+Proof.
+  induction ops as [|o ops IH]; intros s s' xs done I H N B; simpl in H.
+  - inversion H; subst. simpl. exact N.
+  - destruct (step s o) as [s1 x] eqn:E1. destruct (run s1 ops) as [s2 xs2] eqn:E2. inversion H; subst s' xs; clear H.
+    destruct (step_cids _ _ _ _ I E1) as [fresh [Hf [Hn P]]].
+    assert (N1 : NoDup (live s1 ++ map kcid (ocomps x) ++ done)).
+    { rewrite app_assoc. apply (Permutation_NoDup (l := (fresh ++ live s) ++ done)).
+      - apply Permutation_app_tail. symmetry. exact P.
+      - destruct Hf as [->| ->]; simpl; [exact N|]. constructor; [|exact N].
+        intros Hin. apply in_app_or in Hin. destruct Hin as [Hin|Hin];
+        [pose proof (i_bound _ I _ Hin) | pose proof (B _ Hin)]; lia. }
+    assert (B1 : forall y, In y (map kcid (ocomps x) ++ done) -> 0 <= y < ncalls s1).
+    { intros y Hy. apply in_app_or in Hy. destruct Hy as [Hy|Hy].
+      - assert (Hy' : In y (fresh ++ live s)) by (apply (Permutation_in y P); apply in_or_app; right; exact Hy).
+        apply in_app_or in Hy'. destruct Hy' as [Hy'|Hy'].
+        + destruct Hf as [->| ->]; simpl in Hy'; [tauto|]. destruct Hy' as [<-|[]].
+          pose proof (i_ncalls _ I). simpl in Hn. lia.
+        + pose proof (i_bound _ I _ Hy'). lia.
+      - pose proof (B _ Hy). lia. }
+    pose proof (IH s1 s2 xs2 _ (step_Inv _ _ _ _ I E1) E2 N1 B1) as R.
+    unfold completions in *. simpl. rewrite map_app.
+    apply (Permutation_NoDup (l := live s2 ++ map kcid (flat_map ocomps xs2) ++ map kcid (ocomps x) ++ done)); [|exact R].
+    apply Permutation_app_head. rewrite !app_assoc. apply Permutation_app_tail. apply Permutation_app_comm.
+Qed.
+
+Theorem at_most_once c0 ops : u16 c0 ->
+  NoDup (map kcid (completions (snd (run (init c0) ops)))).
+Proof.
+  intros H. destruct (run (init c0) ops) as [s xs] eqn:E. simpl.
+  pose proof (run_cids ops (init c0) s xs [] (Inv_init c0 H) E) as R.
+  assert (N0 : NoDup (live (init c0) ++ [])) by (unfold live; simpl; constructor).
+  specialize (R N0 (fun y Hy => match Hy with end)).
+  rewrite app_nil_r in R.
+  clear -R. induction (live s) as [|a l IH]; simpl in R; [exact R|]. inversion R; subst. apply IH. assumption.
+Qed.
+
+(* sequence numbers over whole histories *)
+Theorem seq_unique c0 ops : u16 c0 ->
+  let s := fst (run (init c0) ops) in
+  NoDup (keys (pending s)) /\ (forall k, In k (keys (pending s)) -> seqnum k).
+Proof. intros H s. pose proof (reach_Inv c0 ops H) as I. split; [apply (i_nodup _ I) | apply (i_keys _ I)]. Qed.
